@@ -16,7 +16,10 @@ echo "== demo without change"; git stash push -q -- src; cargo test --offline --
 unset CARGO_TARGET_DIR
 echo "== check $PROP on /repo with the change"
 cd /repo && git apply $OUT/patch.diff || { echo "patch does not apply to /repo"; exit 2; }
+# (the evidence file of the property is saved and restored: evidence must describe the unchanged tree)
+cp /verif/evidence/$PROP.json /tmp/evidence_$PROP.saved 2>/dev/null
 cd /verif && ./check $PROP $TIER > $OUT/check_$PROP.txt 2>&1; echo "exit=$?" | tee -a $OUT/check_$PROP.txt
 git -C /repo checkout -- .
+mv /tmp/evidence_$PROP.saved /verif/evidence/$PROP.json 2>/dev/null
 grep -E "VIOLATION|failed obligation|UNDECIDED|exit=" $OUT/check_$PROP.txt | cut -c1-220
 cp /verif/replays/$PROP.replay.txt $OUT/replay_$PROP.txt 2>/dev/null
